@@ -496,6 +496,33 @@ def circle(x: fp.Real) -> fp.Real:
 def consts(x: fp.Real) -> tuple[fp.Real, fp.Real, fp.Real]:
     return (fp.const_pi(), fp.const_log2e() * x, fp.const_sqrt2())
 
+
+@fp.fpy
+def fill(i: fp.Real, j: fp.Real, v: fp.Real) -> list[list[fp.Real]]:
+    # a display of literals, nested or not, is a new value at every evaluation: what one call wrote
+    # into it is gone at the next
+    m = [[0, 0], [0, 0]]
+    m[i][j] = v
+    return m
+
+
+@fp.fpy
+def tally(a: fp.Real, b: fp.Real) -> fp.Real:
+    acc, k = ([0, 0, 0], 1)
+    acc[k] = acc[k] + a
+    acc[0] = acc[0] + b
+    return acc[0] + acc[1] + acc[2]
+
+
+@fp.fpy
+def litrow(v: fp.Real) -> tuple[list[fp.Real], fp.Real]:
+    row = [1, 2, 3]
+    row[1] = row[1] + v
+    t = ([4, 5], 6)
+    u = t[0]
+    u[0] = u[0] + v
+    return (row, u[0] + u[1])
+
 # ---- derivations by user rewrite rules (expression rewrites keep the statement: no statement edit) ----
 
 @fp.pattern
@@ -539,6 +566,9 @@ def muladd16(a: fp.Real, b: fp.Real, c: fp.Real) -> tuple[fp.Real, fp.Real]:
 
 
 SIG = {
+    'fill': ['bit', 'bit', 'num'],
+    'tally': ['num', 'num'],
+    'litrow': ['num'],
     'circle': ['num'],
     'consts': ['num'],
     'muladd': ['num', 'num', 'num'],
@@ -615,12 +645,12 @@ RETURNS_LISTS = ['ret_literal', 'ret_nested_literal', 'ret_table', 'ret_callee',
 
 # everything that takes or returns containers
 BOUNDARY = RETURNS_LISTS + ['deep', 'mut_list', 'share_call', 'dot', 'sum_enum', 'use_pass_list', 'poly', 'trans',
-                            'narrow', 'narrow_neg', 'narrow_all', 'ident']
+                            'narrow', 'narrow_neg', 'narrow_all', 'ident', 'fill', 'tally', 'litrow']
 
 # functions whose value under one context may meet what was kept from another: the context ladder
 LADDER = ['tenth', 'consts', 'circle', 'muladd', 'extremes', 'helper_noctx']
 
-SPECIAL = ['circle', 'consts', 'muladd', 'muladd16', 'pinned32', 'narrow', 'extremes', 'tenth', 'use_table', 'uses_closure', 'deep', 'ret_param', 'via_prim', 'calls_failing',
+SPECIAL = ['fill', 'tally', 'litrow', 'circle', 'consts', 'muladd', 'muladd16', 'pinned32', 'narrow', 'extremes', 'tenth', 'use_table', 'uses_closure', 'deep', 'ret_param', 'via_prim', 'calls_failing',
            'calls', 'pinned_rtz16', 'narrow_neg', 'tenth16', 'use_pass_list', 'shadowing', 'ident_pair', 'ret_pair',
            'via_picky', 'asserting', 'cap_num', 'calls_pinned', 'narrow_all', 'tenth32', 'mut_list', 'nested_lists',
            'share_call', 'indexer', 'exact_or_fail', 'trans', 'directed', 'ident', 'slices',
